@@ -7,7 +7,7 @@ CONSTANTS
   Degs <- DegsQ
   MaxNpts = 4
   Acts = {"CvEq"}
-  PtKinds = {"gen"}
+  PtKinds = {"gen", "flat"}
   WtKinds = {"none", "gen", "const"}
   ExtraNodes <- Extra0
   NodeSize = 2
